@@ -18,12 +18,12 @@ def _alarm(signum, frame):
     raise Watchdog()
 
 
-def with_watchdog(seconds, fn, *args):
-    """Run fn(*args) under a SIGALRM horizon (per execution)."""
+def with_watchdog(seconds, fn, *args, **kwargs):
+    """Run fn(*args, **kwargs) under a SIGALRM horizon (per execution)."""
     old = signal.signal(signal.SIGALRM, _alarm)
     signal.setitimer(signal.ITIMER_REAL, seconds)
     try:
-        return fn(*args)
+        return fn(*args, **kwargs)
     finally:
         signal.setitimer(signal.ITIMER_REAL, 0)
         signal.signal(signal.SIGALRM, old)
